@@ -279,6 +279,13 @@ func (lc *leaderController) NewTerm(req *proto.NewTermRequest) (*proto.NewTermRe
 	}
 
 	lc.followers = nil
+
+	// Entries that were appended but not synced yet would become visible after we have reported
+	// our head: make the log stable first, so that the reported head really is the end of the log
+	if err := lc.wal.Sync(context.Background()); err != nil {
+		return nil, err
+	}
+
 	headEntryId, err := getLastEntryIdInWal(lc.wal)
 	if err != nil {
 		return nil, err
